@@ -213,6 +213,13 @@ Definition blk_actions (b : sblk) : list sact :=
 Definition pln_actions (p : spln) : list sact :=
   flat_map sc_acts (pln_groups p) ++ flat_map blk_actions (sp_blocks p).
 
+(* every string a plan's entries carry as a JSON string / TEXT column: names, descriptions, plugin names *)
+Definition act_strs (a : sact) : list tok := [sa_name a; sa_descr a; sa_plugin a].
+Definition pln_strs (p : spln) : list tok :=
+  sp_name p :: sp_descr p
+  :: flat_map act_strs (pln_actions p)
+  ++ flat_map (fun b => sb_name b :: sb_descr b :: flat_map (fun s => [sq_name s; sq_descr s]) (sb_seqs b)) (sp_blocks p).
+
 (* ---- the operations of a vault that write (C13/C14 quantify over lists of them) ----
    An Update* carries what the UPDATE statement / patch binds: the object's id, its state triple,
    and for a plan the reason, for an action the attempts; [pid] is the plan id the object carries
